@@ -217,11 +217,16 @@ def finish(prop, tier, seed, W, procs, tmp, known, t0, nruns, budget):
       known_seen.setdefault(s, r.get("known_msgs", {}).get(s, ""))
     for v in r["violations"]:
       e = new_viol.setdefault(v["sig"], {"count": 0, "replay": None,
-                                         "msg": v["msg"]})
+                                         "msg": v["msg"], "cands": []})
       e["count"] += 1
-      if v.get("replay") and (e["replay"] is None):
-        e["replay"] = v["replay"]
-        e["min_ops"] = v.get("min_ops")
+      if v.get("replay"):
+        e["cands"].append((v["replay"], v.get("min_ops"), v["msg"]))
+        if v.get("replay_orig"):
+          e["origs"] = e.get("origs", []) + [
+              (v["replay_orig"], v.get("orig_ops"), v["msg"])]
+        if e["replay"] is None:
+          e["replay"] = v["replay"]
+          e["min_ops"] = v.get("min_ops")
 
   # confirm each new violation in a fresh interpreter
   confirmed, unconfirmed = [], []
@@ -229,14 +234,28 @@ def finish(prop, tier, seed, W, procs, tmp, known, t0, nruns, budget):
     if not e["replay"]:
       unconfirmed.append((sig, "no replay file written"))
       continue
-    res, err = replay_fresh(prop, e["replay"], set(known))
-    if res is None:
-      unconfirmed.append((sig, err))
-    elif sig in res["got"]:
-      confirmed.append((sig, e))
+    # several workers may have met the same violation; a run whose failure
+    # depended on state left by EARLIER runs of its worker (process-global
+    # state introduced by the code under test) does not replay alone, so
+    # every distinct candidate is tried until one does
+    why = None
+    done = set()
+    for path, nmin, msg in e["cands"][:6] + e.get("origs", [])[:6]:
+      if path in done:
+        continue
+      done.add(path)
+      res, err = replay_fresh(prop, path, set(known))
+      if res is None:
+        why = err
+      elif sig in res["got"]:
+        e["replay"], e["min_ops"], e["msg"] = path, nmin, msg
+        why = None
+        confirmed.append((sig, e))
+        break
+      else:
+        why = "replay in a fresh interpreter gave %r" % (res["got"],)
     else:
-      unconfirmed.append((sig, "replay in a fresh interpreter gave %r" % (
-          res["got"],)))
+      unconfirmed.append((sig, why))
 
   meta = dones[0]["meta"] if dones else {}
   wall = time.time() - t0
